@@ -37,6 +37,47 @@ struct RecSink {
     rec: Rc<RefCell<Rec>>,
 }
 
+thread_local! {
+    /// F13: the next sinks created in this run re-enter the decoders from inside `process` /
+    /// `error` (an "include" being expanded by the consumer): 0 = off, else which call re-enters
+    static REENTER_AT: std::cell::Cell<u64> = const { std::cell::Cell::new(0) };
+    static REENTER_BAD: std::cell::Cell<u64> = const { std::cell::Cell::new(0) };
+    static REENTER_RUNS: std::cell::Cell<u64> = const { std::cell::Cell::new(0) };
+}
+
+/// A nested decode on the same thread while an outer decoder is in the middle of a chunk.
+fn nested_decode() {
+    struct Collect(String, u64);
+    impl TendrilSink<fmt::UTF8> for Collect {
+        type Output = (String, u64);
+        fn process(&mut self, t: StrTendril) {
+            self.0.push_str(&t);
+        }
+        fn error(&mut self, _d: Cow<'static, str>) {
+            self.1 += 1;
+        }
+        fn finish(self) -> (String, u64) {
+            (self.0, self.1)
+        }
+    }
+    REENTER_RUNS.with(|c| c.set(c.get() + 1));
+    let (a, ea) = Utf8LossyDecoder::new(Collect(String::new(), 0)).from_iter([ByteTendril::from_slice(&b"in\xC3"[..]), ByteTendril::from_slice(&b"\xA9c\xFF"[..])]);
+    let enc = Encoding::for_label(b"shift_jis").expect("label");
+    let (b, eb) = LossyDecoder::new_encoding_rs(enc, Collect(String::new(), 0)).from_iter([ByteTendril::from_slice(&b"\x82"[..]), ByteTendril::from_slice(&b"\xA0x\x81"[..])]);
+    if a != "in\u{e9}c\u{fffd}" || ea != 1 || b != "\u{3042}x\u{fffd}" || eb != 1 {
+        REENTER_BAD.with(|c| c.set(c.get() + 1));
+    }
+}
+
+fn maybe_reenter(calls_so_far: u64) {
+    let at = REENTER_AT.with(|c| c.get());
+    if at != 0 && calls_so_far == at {
+        // only once per run, and not from inside the nested decode itself
+        REENTER_AT.with(|c| c.set(0));
+        nested_decode();
+    }
+}
+
 impl TendrilSink<fmt::UTF8> for RecSink {
     type Output = ();
     fn process(&mut self, t: StrTendril) {
@@ -52,9 +93,17 @@ impl TendrilSink<fmt::UTF8> for RecSink {
             },
         }
         r.pieces += 1;
+        let calls = r.pieces + r.errors;
+        drop(r);
+        maybe_reenter(calls);
     }
     fn error(&mut self, _desc: Cow<'static, str>) {
-        self.rec.borrow_mut().errors += 1;
+        let calls = {
+            let mut r = self.rec.borrow_mut();
+            r.errors += 1;
+            r.pieces + r.errors
+        };
+        maybe_reenter(calls);
     }
     fn finish(self) {
         self.rec.borrow_mut().finished = true;
@@ -268,10 +317,12 @@ fn gen_utf8ish(rng: &mut Rng, len: usize, html: bool) -> Vec<u8> {
 
 fn gen_for_encoding(rng: &mut Rng, enc: &str, len: usize) -> Vec<u8> {
     let mut v = Vec::new();
-    match rng.below(12) {
+    match rng.below(14) {
         0 => v.extend_from_slice(&[0xEF, 0xBB, 0xBF]),
         1 => v.extend_from_slice(&[0xFF, 0xFE]),
         2 => v.extend_from_slice(&[0xFE, 0xFF]),
+        // byte-order marks that stop short: the decoder's sniffing buffer has to be replayed
+        3 => v.extend_from_slice(*rng.pick(&[&[0xEFu8][..], &[0xEF, 0xBB], &[0xEF, 0xBB, 0x41], &[0xEF, 0x41], &[0xFF], &[0xFE], &[0xFF, 0x41], &[0xEF, 0xBB, 0xEF, 0xBB, 0xBF]])),
         _ => {},
     }
     while v.len() < len {
@@ -555,6 +606,12 @@ fn run(c: &BCase, stats: &mut Stats) -> Result<u64, Violation> {
     if want_errs > 0 {
         stats.inc("cases_with_ill_formed_input");
     }
+    // F13 (one decoder case in eight): the consumer runs two small decodes of its own from inside
+    // its first, second or third callback
+    let reenter = c.pipeline == "decoder" && (c.bytes.len() + c.encoding.len()) % 8 == 3;
+    REENTER_AT.with(|x| x.set(if reenter { 1 + (c.bytes.len() as u64 / 8) % 3 } else { 0 }));
+    REENTER_BAD.with(|x| x.set(0));
+    REENTER_RUNS.with(|x| x.set(0));
     stats.add("expected_replacements", want_errs);
     let hard_error = matches!(&c.delivery, Delivery::ReadFrom { script } if script.contains(&ReadAct::Error));
     match c.pipeline.as_str() {
@@ -624,6 +681,11 @@ fn run(c: &BCase, stats: &mut Stats) -> Result<u64, Violation> {
                         },
                     }
                 },
+            }
+            REENTER_AT.with(|x| x.set(0));
+            stats.add("F13_sink_reentered_the_decoders", REENTER_RUNS.with(|x| x.get()));
+            if REENTER_BAD.with(|x| x.get()) > 0 {
+                return Err(Violation::new("nested-decode-differs", "a decode run by the sink from inside its callback delivered the wrong text".into()));
             }
             let r = rec.borrow();
             if let Some(b) = &r.bad_piece {
@@ -905,6 +967,6 @@ impl World for BytesWorld {
         false
     }
     fn expected_probes(&self) -> Vec<&'static str> {
-        vec!["F8_byte_chunks_delivered", "F8_reads_interrupted", "F8_short_reads", "F8_hard_read_errors", "probe_cut_inside_multibyte_sequence", "probe_decoded_output_over_8192_bytes", "cases_with_ill_formed_input", "F12_from_file_runs", "F12_from_file_size_lying_pseudo_file"]
+        vec!["F8_byte_chunks_delivered", "F8_reads_interrupted", "F8_short_reads", "F8_hard_read_errors", "probe_cut_inside_multibyte_sequence", "probe_decoded_output_over_8192_bytes", "cases_with_ill_formed_input", "F12_from_file_runs", "F12_from_file_size_lying_pseudo_file", "F13_sink_reentered_the_decoders"]
     }
 }
